@@ -131,10 +131,17 @@ func IsDone(c erpc.CallCmd) bool {
 // Gate is a scheduler-visible latch.
 type Gate struct{ open bool }
 
+//go:norace
+func (g *Gate) isOpen() bool { return g.open }
+
 // Wait blocks in the model until the gate is open.
-func (g *Gate) Wait() { vsched.Block(vsched.KGate, g, func() bool { return g.open }) }
+//
+//go:norace
+func (g *Gate) Wait() { vsched.Block(vsched.KGate, g, g.isOpen) }
 
 // Open opens the gate (a scheduling point).
+//
+//go:norace
 func (g *Gate) Open() { vsched.Point(vsched.KGate, g, nil); g.open = true }
 
 var eventObj = new(int)
